@@ -167,6 +167,8 @@ func extraAlphabet() []Choice {
 		txB("unstake(k1)", chain.TxSpec{Msg: "unstake", From: 1}),
 		txB("dao_transfer(k4->dao?,3)", chain.TxSpec{Msg: "dao_transfer", From: 4, To: 3, Amount: 3}),
 		txB("dao_burn(k4,3)", chain.TxSpec{Msg: "dao_burn", From: 4, Amount: 3}),
+		txB("dao_burn(k4,more than the DAO holds)", chain.TxSpec{Msg: "dao_burn", From: 4, Amount: 2000000}),
+		txB("dao_transfer(k4->k3,more than the DAO holds)", chain.TxSpec{Msg: "dao_transfer", From: 4, To: 3, Amount: 2000000}),
 		evB("burn(k0,1.5)", chain.Event{Kind: "burn", Who: 0, Sev: "1.5"}),
 		multiB("[burn(k0,0.6),burn(k0,0.6)]", chain.Event{Kind: "burn", Who: 0, Sev: "0.6"}, chain.Event{Kind: "burn", Who: 0, Sev: "0.6"}),
 		multiB("[award(k3,10),award(k3,25)]", chain.Event{Kind: "award", Who: 3, Amount: 10}, chain.Event{Kind: "award", Who: 3, Amount: 25}),
@@ -224,6 +226,9 @@ func setAlphabetU(u int64) []Choice {
 		{Label: "dt=3s", Block: chain.Block{DT: 3 * time.Second}},
 		txB("change(MaxValidators=1)", chain.TxSpec{Msg: "change_param", From: 4, Key: "pos/MaxValidators", Val: `"1"`}),
 		txB("change(MaxValidators=3)", chain.TxSpec{Msg: "change_param", From: 4, Key: "pos/MaxValidators", Val: `"3"`}),
+		// limits that need more than 16 bits (the parameter is a uint64)
+		txB("change(MaxValidators=65536)", chain.TxSpec{Msg: "change_param", From: 4, Key: "pos/MaxValidators", Val: `"65536"`}),
+		txB("change(MaxValidators=65537)", chain.TxSpec{Msg: "change_param", From: 4, Key: "pos/MaxValidators", Val: `"65537"`}),
 	}
 }
 
@@ -262,6 +267,10 @@ func rewardAlphabet() []Choice {
 		txB("send(k3->fee collector,1000)", chain.TxSpec{Msg: "send_module", From: 3, Key: "fee_collector", Amount: 1000}),
 		// an award to the zero-length address
 		evB("award(empty address,5)", chain.Event{Kind: "award", Who: chain.EmptyIndex, Amount: 5}),
+		// a fee paid in two denominations (the signer holds some "abc" in the reward configurations)
+		txB("send fee + 5abc", chain.TxSpec{Msg: "send", From: 3, To: 2, Amount: 1, FeeAbc: 5}),
+		Choice{Label: "prop=unknown + send fee + 5abc", Block: chain.Block{Proposer: -1, Events: []chain.Event{txE(chain.TxSpec{Msg: "send", From: 3, To: 2, Amount: 1, FeeAbc: 5})}}},
+		evB("award(staked pool,6)", chain.Event{Kind: "award", Who: chain.PoolIndex, Amount: 6}),
 		// awards whose recipient is one of the accounts the fee distribution itself moves coins through
 		evB("award(fee collector,6)", chain.Event{Kind: "award", Who: chain.FeeIndex, Amount: 6}),
 		Choice{Label: "award(fee collector,6) + send", Block: chain.Block{Events: []chain.Event{{Kind: "award", Who: chain.FeeIndex, Amount: 6}, txE(chain.TxSpec{Msg: "send", From: 3, To: 2, Amount: 1})}}},
@@ -295,7 +304,7 @@ func slashAlphabet() []Choice {
 		multiB("[burn(k0,0.6),burn(k0,0.6)]", chain.Event{Kind: "burn", Who: 0, Sev: "0.6"}, chain.Event{Kind: "burn", Who: 0, Sev: "0.6"}),
 		multiB("[burn(k0,0.3),burn(k1,0.3)]", chain.Event{Kind: "burn", Who: 0, Sev: "0.3"}, chain.Event{Kind: "burn", Who: 1, Sev: "0.3"}),
 	)
-	for _, pw := range []int64{0, 1, 3, 1000000000} {
+	for _, pw := range []int64{0, 1, 3, 1000000000, 10000000000000} {
 		for _, age := range []time.Duration{time.Second, 120 * time.Second, 120*time.Second + time.Nanosecond, 1200 * time.Second} {
 			cs = append(cs, Choice{Label: fmt.Sprintf("evidence(k0,power=%d,age=%s)", pw, age), Block: chain.Block{Evidence: []chain.Evidence{{Val: 0, HeightAgo: 1, Age: age, Power: pw}}}})
 		}
@@ -307,6 +316,10 @@ func slashAlphabet() []Choice {
 		Choice{Label: "evidence(k0)+miss(k0)", Block: chain.Block{Missed: []int{0}, Evidence: []chain.Evidence{{Val: 0, HeightAgo: 1, Age: time.Second}}}},
 		Choice{Label: "miss(k0)", Block: chain.Block{Missed: []int{0}}},
 		Choice{Label: "miss(k0)+burn", Block: chain.Block{Missed: []int{0}, Events: []chain.Event{{Kind: "burn", Who: 0, Sev: "0.4"}}}},
+		// a vote that reports another power than the validator's current one (the downtime slash is
+		// computed from the reported power): far larger (10^13, times 10^6 beyond 2^63) and smaller
+		Choice{Label: "miss(k0) reported power 10^13", Block: chain.Block{Missed: []int{0}, VotePower: []chain.VotePow{{Val: 0, Power: 10000000000000}}}},
+		Choice{Label: "miss(k0) reported power 1", Block: chain.Block{Missed: []int{0}, VotePower: []chain.VotePow{{Val: 0, Power: 1}}}},
 		txB("unstake(k0)", chain.TxSpec{Msg: "unstake", From: 0}),
 		txB("stake(k2,min)", chain.TxSpec{Msg: "stake", From: 2, Amount: min}),
 		evB("burn(k2,0.5)", chain.Event{Kind: "burn", Who: 2, Sev: "0.5"}),
@@ -441,6 +454,15 @@ func statePreludes() map[string][]chain.Block {
 		"k0-removed-with-misses": {{Missed: []int{0}}, {Events: []chain.Event{txE(chain.TxSpec{Msg: "unstake", From: 0})}}, {Missed: []int{0}, DT: 2 * time.Second}, {DT: 2 * time.Second}},
 		// k0's power has changed once while it was in the set (2 -> 1)
 		"k0-slashed-half":     {{Events: []chain.Event{{Kind: "burn", Who: 0, Sev: "0.5"}}}, {}},
+		// k0 was convicted of double signing (tombstoned, force-unstaked), staked again, left through
+		// a complete unstaking (record removed, signing info with the tombstone stays), staked once more
+		// under a new record and has now been jailed for downtime: its jailed-until is an ordinary date
+		"k0-tombstoned-new-record-jailed-for-downtime": {{}, ev0,
+			{Events: []chain.Event{txE(chain.TxSpec{Msg: "stake", From: 0, Amount: min})}},
+			{Events: []chain.Event{txE(chain.TxSpec{Msg: "unstake", From: 0})}},
+			{DT: 3 * time.Second},
+			{Events: []chain.Event{txE(chain.TxSpec{Msg: "stake", From: 0, Amount: 2 * min})}},
+			{}, {}, {}, {Missed: []int{0}}, {Missed: []int{0}}},
 		"k2-joined-k0-jailed": {{Events: []chain.Event{txE(chain.TxSpec{Msg: "stake", From: 2, Amount: 2 * min})}}, {Missed: []int{0}}, {Missed: []int{0}}},
 	}
 }
@@ -567,6 +589,9 @@ func posScenarios(id, tier string) []Scenario {
 			txB("stake(k0,min) restake", chain.TxSpec{Msg: "stake", From: 0, Amount: min}),
 			evB("burn(k0,0.6) forces unstake without jailing", chain.Event{Kind: "burn", Who: 0, Sev: "0.6"}),
 			Choice{Label: "M+burn(k0,0.6)", Block: chain.Block{Missed: []int{0}, Events: []chain.Event{{Kind: "burn", Who: 0, Sev: "0.6"}}}},
+			// the vote that crosses the threshold and double-sign evidence against the same validator in
+			// one block: the votes are handled first (downtime punishment, window cleared), then the evidence
+			Choice{Label: "M+evidence(k0)", Block: chain.Block{Missed: []int{0}, Evidence: []chain.Evidence{{Val: 0, HeightAgo: 1, Age: time.Second}}}},
 		}
 		k, d := kd(3, 5, 4, 6)
 		scs = append(scs, Scenario{Name: "interleaved-W=2", Cfg: windowCfg(2, 1, 2, 2*min), Alphabet: inter, K: k, D: d, Tail: 1})
@@ -574,6 +599,15 @@ func posScenarios(id, tier string) []Scenario {
 		kf, df := kd(2, 4, 3, 5)
 		scs = fromStates(scs, bigStake(), inter, kf, df, "k0-jailed", "k0-unstaking", "k2-joined-k0-jailed")
 		scs = fromStates(scs, windowCfg(3, 1, 2, 2*min), inter, kf, df, "k0-removed-with-misses")
+		// a genesis that carries signing state (a state export): k0 has been expected to sign since
+		// height -10, three ring positions are used, the misses sit at positions 1 and 2 (position 0
+		// was signed and has no entry); every signed/missed sequence from there
+		gw := windowCfg(4, 1, 2, 100*min)
+		gw.GenSigning = []chain.GenSign{{Key: 0, Start: -10, Offset: 3, Missed: []int64{1, 2}}}
+		scs = append(scs, Scenario{Name: "votes-W=4-genesis-with-sparse-missed-array", Cfg: gw, Alphabet: miss, K: 10, D: 10})
+		gw2 := windowCfg(5, 3, 4, 100*min)
+		gw2.GenSigning = []chain.GenSign{{Key: 0, Start: -3, Offset: 2, Missed: []int64{1}}}
+		scs = append(scs, Scenario{Name: "votes-W=5-genesis-with-sparse-missed-array", Cfg: gw2, Alphabet: miss, K: 8, D: 8})
 		// a window of more than 255 blocks (the ring index no longer fits one byte): k0 misses the
 		// first 300 blocks of a 300-block window with 200 required signatures (no punishment inside the
 		// first window), then the alphabet decides what happens around the first jailing and after it
@@ -592,16 +626,27 @@ func posScenarios(id, tier string) []Scenario {
 		}
 		k2, d2 := kd(2, 4, 3, 5)
 		scs = append(scs, Scenario{Name: "3val-jail-fast", Cfg: cfgJailFast(), Alphabet: jailFastAlphabet(), K: k2, D: d2, Tail: 1})
-		scs = fromStates(scs, bigStake(), jailAlphabet(), k2, d2, "k0-jailed", "k0-tombstoned", "k0-unstaking-jailed", "k2-joined-k0-jailed")
+		scs = fromStates(scs, bigStake(), jailAlphabet(), k2, d2, "k0-jailed", "k0-tombstoned", "k0-unstaking-jailed", "k2-joined-k0-jailed", "k0-tombstoned-new-record-jailed-for-downtime")
 		return scs
 	case "C10":
 		k, d := kd(3, 4, 4, 4)
 		ra := rewardAlphabet()
+		// (k3 also holds 1000 coins of a second denomination, for fees paid in two denominations)
+		withAbc := func(c chain.Config) chain.Config {
+			accs := append([]chain.GenAcc{}, c.Accs...)
+			for i := range accs {
+				if accs[i].Key == 3 {
+					accs[i].Abc = 1000
+				}
+			}
+			c.Accs = accs
+			return c
+		}
 		return fromStates([]Scenario{
 			{Name: "rewards", Cfg: baseCfg(), Alphabet: ra[:18], K: k, D: d, Tail: 1},
 			// + unstaked-but-known proposers, zero awards, transfers to module addresses
-			{Name: "rewards-extended", Cfg: baseCfg(), Alphabet: ra, K: k - 1, D: d, Tail: 1},
-		}, bigStake(), ra, k-1, d, "k0-jailed", "k0-unstaking")
+			{Name: "rewards-extended", Cfg: withAbc(baseCfg()), Alphabet: ra, K: k - 1, D: d, Tail: 1},
+		}, withAbc(bigStake()), ra, k-1, d, "k0-jailed", "k0-unstaking")
 	}
 	return nil
 }
